@@ -10,6 +10,8 @@ import (
 
 	"github.com/jmsadair/raft"
 	"github.com/jmsadair/raft/logging"
+
+	"verif/harness/mon"
 )
 
 // W7 — race stress. The deciding oracle is the Go race detector (the binary is built with -race);
@@ -219,5 +221,75 @@ func scenRaceGRPC(x *Ctx) {
 
 func init() {
 	Registry["race.api"] = scenRaceAPI
+	Registry["race.stop"] = scenRaceStop
 	Registry["race.grpc"] = scenRaceGRPC
+}
+
+// scenRaceStop: Stop() while requests of the node are in flight. Replies to the leader's InstallSnapshot /
+// AppendEntries requests and to a candidate's vote requests are held in a gate; one goroutine stops (and restarts)
+// the node, an unrelated timer releases the replies somewhere inside the Stop call (Stop waits for the tickers,
+// i.e. up to two election timeouts), so the sender goroutines resume while Stop closes the log and the snapshot
+// files. The deciding oracle is the race detector.
+func scenRaceStop(x *Ctx) {
+	x.SkipOffline = true
+	r := x.R
+	_, l, ok := x.startStatic(3)
+	if !ok {
+		return
+	}
+	thr := x.C.Opts.FSM.SnapThreshold
+	if thr <= 0 {
+		thr = 5
+	}
+	for round := 0; round < 4; round++ {
+		l = x.C.WaitLeader(3 * time.Second)
+		if l == "" {
+			break
+		}
+		f := pick(r, x.others(l))
+		x.Step("round %d: isolate %s, leader %s moves past a snapshot", round, f, l)
+		x.C.Net.Partition([]string{f}, x.others(f))
+		x.Writes(1, l, 2*thr+3, 500*time.Millisecond)
+		gate := simnetNewGate()
+		who := l
+		if round%2 == 1 {
+			who = f // the isolated node campaigns: its vote requests are what is in flight
+		}
+		var heldIS atomic.Int32
+		rule := x.C.Net.AddRule(&simnetRule{Name: "hold-replies", Gate: gate, Match: func(m *mon.Msg, reply bool) bool {
+			if reply && m.From == who && m.Kind == "IS" {
+				heldIS.Add(1)
+			}
+			return reply && m.From == who
+		}})
+		x.C.Net.ClearLinks()
+		x.WaitFor(800*time.Millisecond, func() bool {
+			if who == l {
+				return heldIS.Load() > 0 // a snapshot transfer is in flight: the leader holds an open snapshot file for the follower
+			}
+			return gate.HeldCount() > 0
+		})
+		if heldIS.Load() > 0 {
+			x.count("race.stops_with_snapshot_transfer_in_flight", 1)
+		}
+		var wg sync.WaitGroup
+		wg.Add(2)
+		pause := time.Duration(r.Intn(3)) * time.Millisecond
+		go func() {
+			defer wg.Done()
+			x.C.Node(who).BounceAfter(pause)
+		}()
+		d := time.Duration(r.Int63n(int64(2*x.ET()))) + time.Millisecond
+		go func() {
+			defer wg.Done()
+			time.Sleep(d)
+			x.C.Net.RemoveRule(rule)
+		}()
+		wg.Wait()
+		x.count("race.stops_with_requests_in_flight", 1)
+		x.C.Net.Heal()
+		time.Sleep(2 * x.ET())
+	}
+	x.count("race.runs", 1)
+	x.NT("race-stop")
 }
